@@ -1,11 +1,13 @@
-\* C20 thorough tier: all strings of length <= 5 over a 9-byte alphabet, every single byte,
+\* C20 thorough tier: all strings of length <= 5 over a 9-byte alphabet, all strings of length <= 4 over 14 bytes (adds \ space % + DEL), every single byte,
 \* run-length families at the 149/150/151 boundary, part lists, metadata strings.
 CONSTANTS
   Alphabet = {97, 48, 46, 124, 58, 47, 61, 0, 195}
   MaxShort = 5
-  RunBytes = {97, 46}
+  Alphabet2 = {97, 48, 46, 124, 58, 47, 61, 0, 195, 92, 32, 37, 43, 127}
+  MaxShort2 = 4
+  RunBytes = {97, 48}
   RunCounts = {1, 2, 149, 150, 151}
-  SepBytes = {124, 58, 47}
+  SepBytes = {46, 124, 58, 47}
   MaxSegs = 3
   Pool <- PoolQuick
   MaxParts = 5
